@@ -320,7 +320,8 @@ Fixpoint skip_to_eol (fuel : nat) (s : wstate) : wres unit :=
 Definition tok_string (t : token) : list N :=
   if is_literal (ty t) then
     let b := utf8_encode (lit t) in
-    let short := if Nat.ltb 20 (length b) then firstn 17 b ++ slit "token.go:String" 0 else b in
+    let short := if N.ltb (nth 0 TokensGen.token_string_ints 0%N) (N.of_nat (length b))
+                 then firstn (N.to_nat (nth 1 TokensGen.token_string_ints 0%N)) b ++ slit "token.go:String" 0 else b in
     sprintf (slit "token.go:String" 1) [tt_text (ty t); short]
   else if is_operator (ty t) then sprintf (slit "token.go:String" 3) [tt_text (ty t)]
   else tt_text (ty t).
